@@ -2,11 +2,11 @@ CONSTANT N = 9
 CONSTANT Users <- U1
 CONSTANT Roles <- R0
 CONSTANT Chans <- ChAB
-CONSTANT Docs <- D2
+CONSTANT Docs <- D1
 CONSTANT Puller = "u1"
 CONSTANT UserMenu <- UMab
 CONSTANT RoleMenu <- RM0
-CONSTANT DocMenu <- DMa2
+CONSTANT DocMenu <- DMa1
 CONSTANT Lims <- L01
 CONSTANT MaxSteps = 6
 CONSTANT PageGap = TRUE
@@ -20,4 +20,6 @@ INVARIANT RevokedUnfetchable
 INVARIANT NoSpuriousRevoke
 INVARIANT ReplicaExactM
 INVARIANT NoSilentDropM
+INVARIANT CandExport
+INVARIANT NontrivExport
 CHECK_DEADLOCK FALSE
